@@ -3,23 +3,27 @@ from checks.pool_common import *
 
 
 def plan(tier):
-    qs = []
-    progs = [((1,), 1, 22), ((1, 3, 1), 1, 34)] if tier == 'quick' else [((1,), 1, 22), ((1, 1), 1, 34), ((1, 3, 1), 1, 34), ((1, 1), 2, 40), ((1, 2, 1), 1, 36)]
-    for ops, mt, K in progs:
-        qs.append(pool_query('stop_%s_mt%d' % (''.join(str(o) for o in ops), mt), ops, mt, K))
-    return qs
+    # (owner program, max threads, K, complete runs?)   ops: 1 start(task), 2 clear(), 3 stop(), 4 wait for all submitted tasks, 5 update(); a final stop() is always appended
+    if tier == 'quick':
+        progs = [((1,), 1, 26, True), ((1, 3, 1), 1, 26, False)]
+    else:
+        progs = [((1,), 1, 26, True), ((1, 3, 1), 1, 44, True), ((1, 1), 2, 34, False), ((1, 2, 1), 1, 30, False)]
+    return [pool_query('stop_%s_mt%d_k%d' % (''.join(str(o) for o in ops), mt, K), ops, mt, K, prefix_only=not full,
+                       expect_reach=('owner finished', 'all threads finished') if full else ()) for ops, mt, K, full in progs]
 
 
 def run(tier, seed):
     ck = PoolCheck('C08', tier, seed)
     qs = plan(tier)
-    ck.bounds = {'tasks': '1..2', 'workers': '1' if tier == 'quick' else '1..2', 'owner programs': [q.desc['owner_program'] for q in qs], 'schedule': 'K steps per query, asserted sufficient', 'outside': 'more tasks/workers; expiring workers; weak memory'}
+    ck.bounds = {'tasks': '1..2', 'workers': '1' if tier == 'quick' else '1..2', 'owner programs': [q.desc['owner_program'] for q in qs],
+                 'schedule': 'K thread choices per query; "complete_runs": K is asserted sufficient for every schedule to terminate (so stop() returns on all of them); otherwise the claim is about the first K steps of every schedule',
+                 'outside': 'more tasks/workers; expiring workers; weak memory; schedules longer than K in prefix queries'}
     ck.assumptions = ASSUME
-    ck.collect_functions([H] + [os.path.join(ck.ws.prepare_repo(), s) for s in SRCS], ['NTASK=1', 'MAXTHREADS=1', 'VF_LIST_CAP=3'])
+    ck.collect_functions([H] + [os.path.join(ck.ws.prepare_repo(), s) for s in SRCS], ['NTASK=1', 'MAXTHREADS=1', 'VF_LIST_CAP=3', 'VF_SPLIT_ENTRY=1'])
     ck.run_all(qs)
     ck.classify(qs)
     return ck.finish(qs, rule='one CBMC query per owner program over the sequentialised real ThreadPool.cpp/Thread.cpp decides over every schedule: stop() returns (no deadlock: a join that can never be enabled is reported), '
-                     'getThreadCount()==0 afterwards, no task running, queued tasks destroyed, a later start() works, worker count <= maximum', stubs=['std::list', 'std::thread', 'std::mutex', 'std::condition_variable', 'system_clock'])
+                     'getThreadCount()==0 afterwards, no task running, queued tasks destroyed, a later start() works, worker count <= maximum', stubs=STUBS)
 
 
 def replay(path):
